@@ -26,6 +26,7 @@ package main
 
 import (
 	"fmt"
+	"go/constant"
 	"go/token"
 	"go/types"
 	"sort"
@@ -955,4 +956,247 @@ func c25HasSuffix(chain []string, suffix ...string) bool {
 		return false
 	}
 	return strings.Join(chain[len(chain)-len(suffix):], ".") == strings.Join(suffix, ".")
+}
+
+// ---------------------------------------------------------------------------
+// Ownership of a slice handed to a callback (E-FLOW, forward may-dataflow).
+//
+// Once a slice S has been passed to a sink that may retain it, the elements
+// S[0:len(S)] belong to the sink.  c25HandedFlow tracks, flow-sensitively, how
+// every later slice value relates to a handed S:
+//
+//	same    - covers the handed elements (S itself, S[:], S[:len(S)], append(S,…))
+//	tail    - starts behind them (S[len(S):] and anything resliced/appended from it)
+//	overlap - shares the array but is shorter than / offset into the handed region
+//	          (S[:0], S[:k], S[a:b] …): an append to it overwrites handed elements
+//
+// and reports: append to an overlap value, element stores / copy / clear into a
+// same or overlap value, and handing a same value to the sink again
+// (the already delivered elements would be delivered twice).  SSA names denote a
+// fresh dynamic value each time their instruction executes, so facts are
+// overwritten at (re)definition and merged (union) at joins; phis are
+// transferred per incoming edge.  Local variables whose address is taken
+// (Alloc cells) are followed through Store/load.
+const (
+	c25FactSame = 1 << iota
+	c25FactTail
+	c25FactOverlap
+)
+
+type c25HandIssue struct {
+	At   ssa.Instruction
+	Kind string // "append" | "store" | "copy" | "clear" | "redeliver"
+	What string
+}
+
+// c25HandedFlow analyses fn.  sinkArg returns the handed slice if in is a sink
+// call.  undecided lists sink calls whose argument lives in a variable this
+// analysis does not model (captured, field, global).
+func c25HandedFlow(fn *ssa.Function, sinkArg func(ssa.Instruction) ssa.Value) (sinks []ssa.Instruction, issues []c25HandIssue, undecided []ssa.Instruction) {
+	if len(fn.Blocks) == 0 {
+		return
+	}
+	type state map[ssa.Value]uint8
+	// is the cell a purely local variable (only stored to / loaded from)?
+	localCell := func(v ssa.Value) bool {
+		a, ok := v.(*ssa.Alloc)
+		if !ok || a.Referrers() == nil {
+			return false
+		}
+		for _, r := range *a.Referrers() {
+			switch x := r.(type) {
+			case *ssa.Store:
+				if x.Addr != ssa.Value(a) {
+					return false // the address itself escapes
+				}
+			case *ssa.UnOp:
+				if x.Op != token.MUL {
+					return false
+				}
+			case *ssa.DebugRef:
+			default:
+				return false
+			}
+		}
+		return true
+	}
+	seenSink := map[ssa.Instruction]bool{}
+	seenUndecided := map[ssa.Instruction]bool{}
+	seenIssue := map[string]bool{}
+	report := func(in ssa.Instruction, kind, what string) {
+		k := fmt.Sprintf("%p/%s", in, kind)
+		if !seenIssue[k] {
+			seenIssue[k] = true
+			issues = append(issues, c25HandIssue{in, kind, what})
+		}
+	}
+	isLenOf := func(v, x ssa.Value) bool {
+		call, ok := v.(*ssa.Call)
+		if !ok {
+			return false
+		}
+		b, ok := call.Call.Value.(*ssa.Builtin)
+		return ok && b.Name() == "len" && len(call.Call.Args) == 1 && call.Call.Args[0] == x
+	}
+	isZero := func(v ssa.Value) bool {
+		if v == nil {
+			return true
+		}
+		cv, ok := constOf(v)
+		return ok && cv.Kind() == constant.Int && constant.Sign(cv) == 0
+	}
+	set := func(st state, v ssa.Value, m uint8) {
+		if m == 0 {
+			delete(st, v)
+		} else {
+			st[v] = m
+		}
+	}
+	transfer := func(st state, in ssa.Instruction) {
+		// --- uses that write ---
+		switch x := in.(type) {
+		case *ssa.Store:
+			if ia, ok := x.Addr.(*ssa.IndexAddr); ok && st[ia.X]&(c25FactSame|c25FactOverlap) != 0 {
+				report(in, "store", "an element of the slice handed to the sink is assigned")
+			}
+			if localCell(x.Addr) {
+				set(st, x.Addr, st[x.Val])
+			}
+			return
+		}
+		if arg := sinkArg(in); arg != nil {
+			if !seenSink[in] {
+				seenSink[in] = true
+				sinks = append(sinks, in)
+			}
+			modelled := true
+			if ld, ok := arg.(*ssa.UnOp); ok && ld.Op == token.MUL && !localCell(ld.X) {
+				modelled = false
+			}
+			if !modelled {
+				if !seenUndecided[in] {
+					seenUndecided[in] = true
+					undecided = append(undecided, in)
+				}
+			}
+			if st[arg]&c25FactSame != 0 {
+				report(in, "redeliver", "a slice that still covers elements already handed to the sink is handed to it again")
+			}
+			st[arg] |= c25FactSame
+			if ld, ok := arg.(*ssa.UnOp); ok && ld.Op == token.MUL && localCell(ld.X) {
+				st[ld.X] |= c25FactSame
+			}
+			if v, ok := in.(ssa.Value); ok {
+				delete(st, v)
+			}
+			return
+		}
+		v, isVal := in.(ssa.Value)
+		if !isVal {
+			return
+		}
+		var m uint8
+		switch x := in.(type) {
+		case *ssa.Slice:
+			src := st[x.X]
+			if src&c25FactTail != 0 {
+				m |= c25FactTail
+			}
+			if src&c25FactOverlap != 0 {
+				m |= c25FactOverlap
+			}
+			if src&c25FactSame != 0 {
+				switch {
+				case x.Low != nil && isLenOf(x.Low, x.X):
+					m |= c25FactTail
+				case isZero(x.Low) && (x.High == nil || isLenOf(x.High, x.X)):
+					m |= c25FactSame
+				default:
+					m |= c25FactOverlap
+				}
+			}
+		case *ssa.Call:
+			if b, ok := x.Call.Value.(*ssa.Builtin); ok && len(x.Call.Args) > 0 {
+				dst := st[x.Call.Args[0]]
+				switch b.Name() {
+				case "append":
+					if dst&c25FactOverlap != 0 {
+						report(in, "append", "append to a slice that shares the array handed to the sink but is shorter than what was handed: it overwrites elements the sink still holds")
+					}
+					m = dst
+				case "copy":
+					if dst&(c25FactSame|c25FactOverlap) != 0 {
+						report(in, "copy", "copy into the slice handed to the sink")
+					}
+				case "clear":
+					if dst&(c25FactSame|c25FactOverlap) != 0 {
+						report(in, "clear", "clear of the slice handed to the sink")
+					}
+				}
+			}
+		case *ssa.UnOp:
+			if x.Op == token.MUL && localCell(x.X) {
+				m = st[x.X]
+			}
+		case *ssa.ChangeType:
+			m = st[x.X]
+		case *ssa.Convert:
+			m = st[x.X]
+		case *ssa.MakeInterface:
+			m = st[x.X]
+		case *ssa.Phi:
+			return // transferred on the incoming edge
+		}
+		set(st, v, m) // (a re-executed Alloc is a fresh variable)
+	}
+	in := map[*ssa.BasicBlock]state{fn.Blocks[0]: {}}
+	work := []*ssa.BasicBlock{fn.Blocks[0]}
+	for len(work) > 0 {
+		b := work[len(work)-1]
+		work = work[:len(work)-1]
+		st := state{}
+		for k, v := range in[b] {
+			st[k] = v
+		}
+		for _, ins := range b.Instrs {
+			transfer(st, ins)
+		}
+		for _, s := range b.Succs {
+			ns := state{}
+			for k, v := range st {
+				ns[k] = v
+			}
+			pi := -1
+			for i, p := range s.Preds {
+				if p == b {
+					pi = i
+				}
+			}
+			for _, ins := range s.Instrs {
+				ph, ok := ins.(*ssa.Phi)
+				if !ok {
+					break
+				}
+				if pi >= 0 {
+					set(ns, ph, st[ph.Edges[pi]])
+				}
+			}
+			old, visited := in[s]
+			changed := !visited
+			if old == nil {
+				old = state{}
+				in[s] = old
+			}
+			for k, v := range ns {
+				if old[k]|v != old[k] {
+					old[k] |= v
+					changed = true
+				}
+			}
+			if changed {
+				work = append(work, s)
+			}
+		}
+	}
+	return
 }
